@@ -18,7 +18,7 @@ def run(chk, F, tier):
     chk.assume("lock identity = guarded type; every lock object in emmylua_ls has a distinct guarded type except the two "
                "PendingTask debounce mutexes, which are merged (conservative)")
     chk.assume("tasks started with tokio::spawn do not inherit the spawner's held locks; liveness under starvation and "
-               "deadlocks through channels/JoinHandles are not decided")
+               "deadlocks through channels/JoinHandles are decided only for the 'guard held while awaiting other tasks / the client' shape (R28e/R28f)")
     LG = locks.LockGraph(F, {"emmylua_ls", "emmylua_check", "emmylua_doc_cli"})
     nb = sum(1 for b in LG.bl.values() if b.guards)
     chk.floor("bodies holding guards", nb, 60)
@@ -77,5 +77,68 @@ def run(chk, F, tier):
                       "a std::sync guard (%s) is live across an await: it blocks the executor thread" % std,
                       bl.b.loc(line))
     chk.unit("await points with a guard held", ny)
+    # ---- R28e / R28f: what is awaited while an analysis / workspace-manager guard is held --------------------------------------------
+    import callgraph
+    import dataflow
+    chk.rule("R28e", "no guard of the analysis or workspace-manager lock is live across an await that waits for other tasks (JoinHandle, JoinSet, "
+                     "join_all, channel recv): those tasks may need the same lock, and with a writer queued in between (fair RwLock) nobody proceeds")
+    chk.rule("R28f", "no guard of the analysis or workspace-manager lock is live across a client round trip (a future that reaches "
+                     "ClientProxy::send_request), unless audited as time-limited: the answer is delivered by the message loop, which itself awaits these locks")
+    ROUND_TRIP_AUDITED = {
+        ("emmylua_ls::handlers::initialized::init_analysis::{closure#0}", "StatusBar::create_progress_task"):
+            "window/workDoneProgress/create is sent with time_cancel_token(5 s): the wait is bounded (a stall, not a hang)",
+    }
+    GUARDED = ("EmmyLuaAnalysis", "WorkspaceManager")
+    WAITS_FOR_TASKS = ("JoinHandle<", "JoinSet<", "JoinAll<", "join_all", "TryJoinAll", "mpsc::bounded::Receiver", "mpsc::unbounded::UnboundedReceiver",
+                       "oneshot::Receiver", "::recv::", "Receiver<T>::recv", "broadcast::Receiver", "Notified<", "Barrier")
+    cg = callgraph.CallGraph(F)
+    SEND_REQ = next((k for k in F.bodies if k.endswith("ClientProxy::send_request")), "emmylua_ls::context::client::ClientProxy::send_request")
+    nyield = 0
+    for b in F.bodies.values():
+        if b.crate != "emmylua_ls" or "::test" in b.id or not b.get("coroutine"):
+            continue
+        BL = LG.bl.get(b.id) or locks.BodyLocks(b)
+        if not BL.yields_held:
+            continue
+        succ = b.succ_map()
+        idom = cfgutil.dominators(succ, 0)
+        intos = [(bb, c) for bb, c in b.calls() if (c.get("r") or c.get("f") or "").endswith("IntoFuture>::into_future")]
+        seen_keys = set()
+        for bb, line, held in BL.yields_held:
+            hl = sorted({h[0].split("::")[-1] for h in held if h[0].split("::")[-1] in GUARDED})
+            if not hl:
+                continue
+            best = None
+            for ib, c in intos:
+                if cfgutil.dominates(idom, ib, bb) and (best is None or cfgutil.dominates(idom, best[0], ib)):
+                    best = (ib, c)
+            if best is None:
+                continue
+            c = best[1]
+            fut = b.ty_str(c["ga"][0]) if c.get("ga") else ""
+            src = ""
+            l = dataflow.operand_local(c["a"][0]) if c["a"] else None
+            for r in (dataflow.roots(b, l) if l is not None else ()):
+                if r[0] == "call":
+                    src = b.blocks[r[1]][2][1].get("r") or b.blocks[r[1]][2][1].get("f") or ""
+            key = "%s@%s" % ("::".join(src.split("::")[-2:]) or fut[:40], b.id.replace("emmylua_ls::", ""))
+            if key in seen_keys:
+                continue
+            seen_keys.add(key)
+            nyield += 1
+            waits = any(w in fut or w in src for w in WAITS_FOR_TASKS)
+            chk.check(not waits, "R28e", "await-tasks:" + key,
+                      "%s holds %s while awaiting %s, i.e. the completion of other tasks: if those tasks take the same lock and a writer queues between "
+                      "them, the holder waits for a task that waits for the writer that waits for the holder" % (b.id.split("::")[-2] if b.id.endswith("}") else b.id.split("::")[-1], hl, (src or fut)[:90]),
+                      b.loc(line), sample={"rule": "R28e", "site": key, "verdict": "does not wait for other tasks"})
+            reach = cg.reachable([src, src + "::{closure#0}"]) if src else set()
+            rt = SEND_REQ in reach or (SEND_REQ + "::{closure#0}") in reach
+            aud = ROUND_TRIP_AUDITED.get((b.id, "::".join(src.split("::")[-2:])))
+            chk.check(not rt or aud is not None, "R28f", "await-client:" + key,
+                      "%s holds %s while awaiting %s, which sends a request to the client and waits for its answer: the message loop that must deliver the "
+                      "answer also awaits these locks for didOpen/didChange/didClose, so one such notification in between stops both"
+                      % (b.id.split("::")[-2] if b.id.endswith("}") else b.id.split("::")[-1], hl, "::".join(src.split("::")[-2:])), b.loc(line),
+                      sample={"rule": "R28f", "site": key, "verdict": aud or "no client round trip under the guard"})
+    chk.floor("awaits under an analysis / workspace-manager guard", nyield, 10)
     chk.explanation = ("Forward may-held analysis of guard locals on every coroutine/function body, transitive acquires() "
                        "summaries (not through tokio::spawn), SCCs of the held->acquired relation.")
